@@ -223,12 +223,14 @@ type batch struct {
 	bind     int
 	http     int
 	mux      int
+	dash     int
+	stalled  atomic.Bool // a session stall was reported: stop probing (every probe would wait out its watchdog)
 	lo, hi   int
 	pfx      string
 	perActor int
 }
 
-func (b *batch) dead() bool { return b.child.Exited() }
+func (b *batch) dead() bool { return b.child.Exited() || b.stalled.Load() }
 
 func (b *batch) dial(o h.PeerOpts) (*h.Peer, error) {
 	o.ServerPort, o.TCPMux = b.bind, true
@@ -250,10 +252,10 @@ func serverBatch(c *h.Case) {
 	slot := <-slots // concurrent batches own disjoint port ranges
 	defer func() { slots <- slot }()
 	pa := h.PortsSub(prop, slot, 4)
-	ps := pa.Block(3)
+	ps := pa.Block(4)
 	lo := 26000 + slot*250 + 60
 	hi := lo + 150
-	b := &batch{c: c, bind: ps[0], http: ps[1], mux: ps[2], lo: lo, hi: hi, pfx: fmt.Sprintf("b%d.", c.Idx), perActor: run.N(2500, 9000)}
+	b := &batch{c: c, bind: ps[0], http: ps[1], mux: ps[2], dash: ps[3], lo: lo, hi: hi, pfx: fmt.Sprintf("b%d.", c.Idx), perActor: run.N(2500, 9000)}
 	cfg := fmt.Sprintf(`
 bindAddr = "127.0.0.1"
 bindPort = %d
@@ -263,8 +265,10 @@ auth.token = "%s"
 userConnTimeout = 2
 maxPortsPerClient = 8
 subDomainHost = "sub.test"
+webServer.addr = "127.0.0.1"
+webServer.port = %d
 allowPorts = [{start=%d,end=%d}]
-`, b.bind, b.http, b.mux, token, lo, hi)
+`, b.bind, b.http, b.mux, token, b.dash, lo, hi)
 	child, err := h.StartChild(prop, "frps", cfg, fmt.Sprintf("VNODE_PERTURB=%d", c.Rng.Int63()))
 	if err != nil {
 		if child != nil {
@@ -338,6 +342,9 @@ allowPorts = [{start=%d,end=%d}]
 	actor("visitors", 0, b.visitorChurn)
 	actor("nathole", 0, b.natholeChurn)
 	actor("nathole", 1, b.natholeChurn)
+	actor("quota", 0, b.quotaActor)
+	actor("traffic", 0, func(g *gen, n int) { b.trafficActor(g, n, honestPort) })
+	actor("dashboard", 0, b.dashboardActor)
 	wg.Wait()
 	close(stop)
 	hw.Wait()
@@ -345,7 +352,7 @@ allowPorts = [{start=%d,end=%d}]
 
 	// verdicts
 	time.Sleep(200 * time.Millisecond)
-	if b.dead() {
+	if child.Exited() {
 		line, frame, ok := child.Crash()
 		if !ok {
 			line, frame = "child exited without panic text", "unknown"
@@ -562,11 +569,93 @@ func (b *batch) authFuzzer(g *gen, n int) {
 			}
 			sent++
 		}
+		b.sessionLiveness(p, "authenticated fuzz session")
 		if g.r.Intn(2) == 0 {
 			p.CloseControlOnly()
 			time.Sleep(time.Duration(g.r.Intn(3)) * time.Millisecond)
 		}
 		p.Close()
+	}
+}
+
+// sessionLiveness: a session that the server has not closed must still have its messages handled
+// (frps handles a session's NewProxy / CloseProxy / Ping in order on one goroutine: an unanswered Ping
+// means that goroutine is stuck). Bounded-progress watchdog: 30 s.
+func (b *batch) sessionLiveness(p *h.Peer, what string) {
+	if p.Closed() || b.dead() {
+		return
+	}
+	ts := time.Now().Unix()
+	if p.Send(&msg.Ping{Timestamp: ts, PrivilegeKey: h.AuthKey(token, ts)}) != nil {
+		return
+	}
+	_, err := p.WaitMsg(30*time.Second, func(m msg.Message) bool { _, ok := m.(*msg.Pong); return ok })
+	run.Count("session_liveness_probes", 1)
+	if err == h.ErrTimeout && !p.Closed() && !b.dead() {
+		b.c.Data["last_messages"] = b.log.tail()
+		b.stalled.Store(true)
+		b.c.Violation("frps-session-message-handling-stalled", "%s: the control connection is open but a Ping sent after the session's other messages got no Pong within 30 s (the session's message handling is stuck)", what)
+	}
+}
+
+// quotaActor drives sessions over their port quota and then expects them to keep being served.
+func (b *batch) quotaActor(g *gen, n int) {
+	for i := 0; i < n/60 && !b.dead(); i++ {
+		p, err := b.dial(h.PeerOpts{})
+		if err != nil || !p.LoggedIn() {
+			continue
+		}
+		refused := 0
+		for k := 0; k < 14 && refused < 2; k++ {
+			typ := []string{"tcp", "udp"}[g.r.Intn(2)]
+			m := &msg.NewProxy{ProxyName: fmt.Sprintf("%sq%d-%d", b.pfx, i, k), ProxyType: typ, RemotePort: 0}
+			b.log.add("quota-register", m)
+			r, err := p.NewProxy(m, 30*time.Second)
+			if err != nil {
+				if err == h.ErrTimeout && !p.Closed() && !b.dead() {
+					b.c.Data["last_messages"] = b.log.tail()
+					b.stalled.Store(true)
+					b.c.Violation("frps-session-message-handling-stalled", "quota session: registration %d after %d refusals got no reply within 30 s although the control connection is open", k, refused)
+				}
+				break
+			}
+			if r.Error != "" {
+				refused++
+			}
+		}
+		if g.r.Intn(2) == 0 {
+			_ = p.CloseProxy(fmt.Sprintf("%sq%d-0", b.pfx, i))
+		}
+		b.sessionLiveness(p, fmt.Sprintf("session after %d refused over-quota registrations", refused))
+		p.Close()
+		run.Count("quota_sessions", 1)
+	}
+}
+
+// trafficActor: bursts of simultaneous short user connections through the honest tunnel (traffic accounting).
+func (b *batch) trafficActor(g *gen, n int, port int) {
+	for i := 0; i < n/50 && !b.dead(); i++ {
+		var wg sync.WaitGroup
+		for j := 0; j < 24; j++ {
+			wg.Add(1)
+			go func() {
+				defer wg.Done()
+				_, _ = h.AskIdent(fmt.Sprintf("127.0.0.1:%d", port), 20*time.Second)
+			}()
+		}
+		wg.Wait()
+		run.Count("traffic_bursts", 1)
+	}
+}
+
+// dashboardActor polls the dashboard API while everything else runs.
+func (b *batch) dashboardActor(g *gen, n int) {
+	paths := []string{"/api/serverinfo", "/api/proxy/tcp", "/api/proxy/udp", "/api/proxy/http", "/api/proxy/stcp", "/api/proxy/xtcp", "/api/traffic/" + b.pfx + "honest", "/api/proxy/tcp/" + b.pfx + "honest", "/metrics", "/api/proxy/" + hostileStrs[g.r.Intn(len(hostileStrs))]}
+	for i := 0; i < n/4 && !b.dead(); i++ {
+		path := paths[g.r.Intn(len(paths))]
+		raw := fmt.Sprintf("GET %s HTTP/1.1\r\nHost: dash\r\nConnection: close\r\n\r\n", strings.ReplaceAll(path, " ", "%20"))
+		_, _, _ = h.RawHTTP(fmt.Sprintf("127.0.0.1:%d", b.dash), []byte(raw), 10*time.Second)
+		run.Count("dashboard_requests", 1)
 	}
 }
 
